@@ -15,7 +15,8 @@ RULE = ("random plain-data trees (depth <= 5, <= 40 leaves) over null/bool/int (
         "(tree, format) pairs are skipped and counted; non-trivial = tree with >= 3 nodes in the domain of >= 2 "
         "formats; distinct = distinct tree")
 REQUIRED = ("trees_nested_30_to_200_levels", "encodes_after_a_failed_encode", "documents_of_chosen_encoded_size", "trees_with_shared_late_objects", "second_decodes_after_mutation", "roundtrip:json", "roundtrip:yaml", "roundtrip:bson", "roundtrip:xml", "roundtrip:pickle",
-            "cross_format_comparisons", "option_comparisons", "xml_wrong_root_rejected")
+            "cross_format_comparisons", "option_comparisons", "xml_wrong_root_rejected",
+            "xml_roundtrips_of_maps_with_non_ascii_names", "xml_wrong_root_rejected_non_ascii_tags")
 ASSUMPTIONS = ["domains are the ones stated in the property (XML: XML 1.0 characters without CR and keys that are "
                "XML names; BSON: signed 64-bit integers, keys without NUL), plus: no lone surrogates, integers "
                "below 10**1000 (CPython's own int/str conversion limit)",
@@ -23,9 +24,108 @@ ASSUMPTIONS = ["domains are the ones stated in the property (XML: XML 1.0 charac
 EXCLUDED = ["lone surrogate code points", "integers of more than 1000 digits", "non-string map keys"]
 
 
+# Keys that are XML names without being ASCII.  The two sets hold characters that may begin / continue a Name under the
+# productions of XML 1.0 in the fourth edition (Letter; CombiningChar, Extender - the rules the expat parser implements) AND
+# in the fifth edition (NameStartChar; NameChar), so a key made of them is an XML name whichever edition one reads.  Many of
+# them are not stable under some Unicode normal form or case mapping (OHM / KELVIN / ANGSTROM SIGN, GREEK OXIA letters, a
+# composition exclusion of Devanagari, LONG S WITH DOT, THAI SARA AM, GREEK BETA SYMBOL, letters followed by combining marks,
+# Hangul syllables and conjoining jamo): to a codec two such spellings are two different keys.
+_NAME_START = ("\u00e9\u00c5\u00f6\u00f1\u00df\u00dc\u03a9\u0439\u0438\uac00\uac01\u1100\u4e2d\u304c\u304b\u0958\u0915\u03ac\u1f71\u03b1"
+               "\u1e9b\u1e61\u0e33\u0e32\u03d0\u03b2\u1fbe\u03b9\u2126\u212a\u212b\u01d5\u0130\u0131\u03c2\u03c3\u1f88\u1e0b\u1e0d")
+_NAME_CONT = ("\u0301\u0308\u0327\u0323\u0340\u0341\u0343\u0344\u0306\u3099\u093c\u0387\u00b7\u0e4d\u0313\u0307\u0304"
+              "\u1161\u11a8")
+_ASCII_START = frozenset("ABCDEFGHIJKLMNOPQRSTUVWXYZabcdefghijklmnopqrstuvwxyz_")
+_ASCII_CONT = _ASCII_START | frozenset("0123456789.-")
+_START_SET = _ASCII_START | frozenset(_NAME_START)
+_CONT_SET = _ASCII_CONT | frozenset(_NAME_START) | frozenset(_NAME_CONT)
+_START_ATOMS = list(_NAME_START) + ["r", "e", "A", "K", "u", "o", "n", "s", "_", "k", "sum", "Ohm", "angstrom", "i", "I", "SS", "ss",
+                                    "e\u0301", "A\u0308", "u\u0308\u0304", "\u0438\u0306", "\u1100\u1161",
+                                    "\u1100\u1161\u11a8", "\u304b\u3099", "\u0915\u093c", "\u03b1\u0301", "d\u0323\u0307", "d\u0307\u0323",
+                                    "\u1e0b\u0323", "\u1e0d\u0307", "\u00dc\u0304", "s\u0307", "\u0e32\u0e4d", "c\u0327", "\u03a9\u0313"]
+_CONT_ATOMS = _START_ATOMS + list(_NAME_CONT) + ["0", "9", "-", ".", "2"]
+_RESPELL = ("NFC", "NFD", "NFKC", "NFKD", "lower", "upper", "casefold", "swapcase", "title")
+
+
+def _xml_name(key):
+    """An XML name by both editions of XML 1.0 (a deliberately small subset; no colon - finding K19)."""
+    return bool(key) and key[0] in _START_SET and all(c in _CONT_SET for c in key)
+
+
+def _uni_key(rng):
+    key = rng.choice(_START_ATOMS)
+    for _ in range(rng.choice([0, 0, 1, 1, 2, 3])):
+        key += rng.choice(_CONT_ATOMS)
+    return key
+
+
+def _respelled(rng, key):
+    """Another spelling of the key (a different string that is again an XML name), or None."""
+    import unicodedata
+
+    forms = list(_RESPELL)
+    rng.shuffle(forms)
+    for form in forms:
+        other = unicodedata.normalize(form, key) if form.startswith("NF") else getattr(key, form)()
+        if other != key and _xml_name(other):
+            return other
+    return None
+
+
+def _rename_keys(rng, value, share, out):
+    """Give a share of the map keys (at every depth, also inside lists) a non-ASCII XML name; some of them get a sibling
+    whose key differs from theirs only in spelling (normal form / case).  out: the keys that were used."""
+    if isinstance(value, list):
+        return [_rename_keys(rng, v, share, out) for v in value]
+    if not isinstance(value, dict):
+        return value
+    new = {}
+    for k, v in value.items():
+        v = _rename_keys(rng, v, share, out)
+        if rng.random() < share:
+            k2 = _uni_key(rng)
+            if k2 not in new and k2 not in value:
+                k = k2
+                out.append(k)
+                twin = _respelled(rng, k) if rng.random() < 0.5 else None
+                if twin is not None and twin not in new and twin not in value:
+                    new[k] = v
+                    out.append(twin)
+                    k, v = twin, trees.gen_leaf(rng)
+        new[k] = v
+    return new
+
+
 def generate(rng, ctx):
-    odd = 0.15 if rng.random() < 0.5 else 0.0  # odd keys push the tree out of the XML domain
-    return {"tree": trees.gen_tree(rng, depth=rng.choice([1, 2, 3, 4, 5]), leaves=rng.choice([5, 15, 40]), odd=odd)}
+    uni = rng.random() < 0.2
+    odd = 0.15 if rng.random() < 0.5 and not uni else 0.0  # odd keys push the tree out of the XML domain
+    case = {"tree": trees.gen_tree(rng, depth=rng.choice([1, 2, 3, 4, 5]), leaves=rng.choice([5, 15, 40]), odd=odd)}
+    if uni:
+        used = []
+        case["tree"] = _rename_keys(rng, case["tree"], rng.choice([0.2, 0.5, 1.0]), used)
+        root = rng.choice(used) if used and rng.random() < 0.5 else _uni_key(rng)
+        other = _respelled(rng, root)
+        case["roots"] = [root] + ([other] if other else [])
+        case["uni"] = 1
+    return case
+
+
+def _in_domain(fmt, value):
+    """trees.in_domain, with the XML keys widened from ASCII names to the names of _xml_name."""
+    if fmt != "xml":
+        return trees.in_domain(fmt, value)
+    if isinstance(value, dict):
+        return all(isinstance(k, str) and _xml_name(k) and _in_domain(fmt, v) for k, v in value.items())
+    if isinstance(value, list):
+        return all(_in_domain(fmt, v) for v in value)
+    return trees.in_domain(fmt, value, False)
+
+
+def _non_ascii_keys(value):
+    if isinstance(value, dict):
+        return any(not k.isascii() or _non_ascii_keys(v) for k, v in value.items())
+    if isinstance(value, list):
+        return any(_non_ascii_keys(v) for v in value)
+    return False
 
 
 def _magic_sizes():
@@ -70,6 +170,15 @@ def directed(ctx):
     for a, b in RELATED_STRINGS:
         yield {"tree": {"first": a, "second": b, "both": [b, a, {"k": a}]}, "directed": 1}
         yield {"tree": {"first": b, "second": a, "both": [a, b]}, "directed": 1}
+    # keys that are XML names but not ASCII, in two spellings that differ only in normal form / case, side by side and nested
+    for a, b in (("re\u0301sume\u0301", "r\u00e9sum\u00e9"), ("\u2126hm", "\u03a9hm"), ("\u212bngstrom", "\u00c5ngstrom"), ("\u212a", "K"),
+                 ("\u1100\u1161", "\uac00"), ("\u0958", "\u0915\u093c"), ("\u1f71", "\u03ac"), ("x\u1e9b", "x\u1e61"), ("\u03d0eta", "\u03b2eta"),
+                 ("k\u0e33", "k\u0e4d\u0e32"), ("stra\u00dfe", "STRASSE"), ("\u0130d", "\u0131d"), ("\u03c3\u03c2", "\u03c3\u03c3"),
+                 ("d\u0323\u0307", "d\u0307\u0323"), ("\u304b\u3099", "\u304c"), ("\u0439", "\u0438\u0306")):
+        for x, y in ((a, b), (b, a)):
+            yield {"tree": {"plain": 1, x: "first", y: "second", "sec": {y: {"x": []}, "list": [{x: 1}, {y: [1.5, None, True]}]}},
+                   "directed": 1, "uni": 1, "roots": [x, y]}
+            yield {"tree": {x: {x: {y: None}}, "k0": [[{x: ""}]]}, "directed": 1, "uni": 1, "roots": [y]}
     for v in leaves:
         yield {"tree": {"k0": v}}
         yield {"tree": {"CONFIG": v, "config": {"k0": v}}}
@@ -120,13 +229,19 @@ def run(case, ctx, res):
         cfg = ctx.cache["cfg"] = cc.Schema()()
     decoded = {}
     indomain = 0
+    roots = [r for r in case.get("roots", ()) if _xml_name(r)]
     for fmt in trees.FORMATS:
-        if not trees.in_domain(fmt, tree):
+        if not _in_domain(fmt, tree):
             res.count("skipped_out_of_domain:" + fmt)
             continue
         indomain += 1
         per_opt = []
-        for opts in trees.OPTIONS[fmt]:
+        options = trees.OPTIONS[fmt]
+        wide = fmt == "xml" and _non_ascii_keys(tree)
+        if fmt == "xml":
+            # root tags that are XML names without being ASCII (the case brings one or two spellings of one name)
+            options = options + [{"root_tag": r} for r in roots]
+        for opts in options:
             label = fmt + ("(%s)" % ",".join("%s=%s" % kv for kv in opts.items()) if opts else "")
             try:
                 codec = cc.ConfigFormat.get(fmt, **opts)
@@ -141,6 +256,8 @@ def run(case, ctx, res):
                     label, type(exc).__name__, str(exc)[:150], kinds))
                 continue
             res.count("roundtrip:" + fmt)
+            if wide:
+                res.count("xml_roundtrips_of_maps_with_non_ascii_names")
             diff = trees.first_difference(tree, back)
             if diff:
                 res.viol("M-roundtrip", "%s:%s" % (fmt, diff[1]), "%s: at %s %s" % (label, diff[0], diff[2]))
@@ -164,13 +281,15 @@ def run(case, ctx, res):
             # wrong root tag must be rejected
             if fmt == "xml":
                 mine = opts.get("root_tag", "config")
-                for other in ("config", "cfg", "k0", "Config"):
+                for other in ["config", "cfg", "k0", "Config"] + roots:
                     if other == mine:
                         continue
                     try:
                         cc.ConfigFormat.get("xml", root_tag=other).loads(cfg, blob)
                     except Exception:
                         res.count("xml_wrong_root_rejected")
+                        if not (other.isascii() and mine.isascii()):
+                            res.count("xml_wrong_root_rejected_non_ascii_tags")
                     else:
                         res.viol("M-root", "xml:wrong-root-accepted", "document with root <%s> accepted under root_tag=%r" % (
                             mine, other))
